@@ -419,34 +419,51 @@ def ob_probit(timeout_ms):
     return out
 
 
+def known_method_regexes():
+    """(documented, generous): the documented names case-insensitively, and the widest set a benign normalisation
+    could accept (surrounding whitespace, '_' for '-'); anything outside `generous` is an unknown method name."""
+    from vf.pysym.values import SNorm, norm_eq_regex, strip_chars
+    x = z3.String("method")
+    doc = z3.Union(norm_eq_regex(SNorm(x, True, False), "agresti-coull"), norm_eq_regex(SNorm(x, True, False), "wald"))
+    gen = z3.Union(norm_eq_regex(SNorm(x, True, True), "agresti-coull"), norm_eq_regex(SNorm(x, True, True), "agresti_coull"),
+                   norm_eq_regex(SNorm(x, True, True), "wald"))
+    return doc, gen
+
+
 def ob_method(timeout_ms):
     tally = Tally()
     out = base_out("method dispatch")
     method = SStr(z3.String("method"))
     run, v, assume = run_ci(method)
     absorb(out, run)
-    low = LOWER()(method.term)
+    doc, gen = known_method_regexes()
     for p in run.paths:
         if isinstance(p.outcome, Unsup):
             r, m = common.check(tally, p.conds, timeout_ms)
-            if r != "unsat":
-                # the radicand path: decided in ob_algebra
-                continue
+            if r != "unsat" and "0.5" not in p.outcome.reason:
+                out["status"] = "inconclusive"
+                out["note"] = "method dispatch leaves the pysym subset: " + p.outcome.reason
             continue
         refused = isinstance(p.outcome, Raise) and p.outcome.exc_name == "NotImplementedError"
-        unknown_name = z3.And(low != z3.StringVal("agresti-coull"), low != z3.StringVal("wald"))
-        q = list(p.conds) + [z3.Not(unknown_name) if refused else unknown_name]
-        r, m = common.check(tally, q, timeout_ms, label="C18 NotImplementedError <=> lower(method) not in {agresti-coull, wald}",
-                            keep_sample=True)
+        if refused:
+            q = list(p.conds) + [z3.InRe(method.term, doc)]
+            lab = "C18 a documented method name (any case) is refused"
+        elif isinstance(p.outcome, Return):
+            q = list(p.conds) + [z3.Not(z3.InRe(method.term, gen))]
+            lab = "C18 an unknown method name is accepted"
+        else:
+            q = list(p.conds)
+            lab = "C18 method dispatch raises %s" % p.outcome.exc_name
+        r, m = common.check(tally, q, timeout_ms, label=lab, keep_sample=True)
         if r == "sat":
-            out["witnesses"].append({"kind": "ci_method", "method": "some-unknown-method",
-                                     "why": "method dispatch: %r although lower(method) is %s a known name"
-                                            % (p.outcome, "not" if not refused else ""), "plain": ""})
+            mv = harness.model_value(m, method)
+            out["witnesses"].append({"kind": "ci_method", "method": mv, "expect_ok": bool(refused),
+                                     "why": "%s: method=%r -> %r" % (lab, mv, p.outcome), "plain": ""})
         elif r == "unknown":
             note_unknown(out, "method dispatch")
         else:
             out["reach"] += 1
-    # case-insensitivity of the real str.lower on the documented names (anchor for the stub)
+    # anchor: the documented spellings work on the real function
     from pyab_experiment.utils.stats import confidence_interval
     for mname in ("Agresti-Coull", "WALD", "wald", "agresti-coull"):
         try:
